@@ -20,7 +20,7 @@ import (
 func init() { runners["C04"] = runC04 }
 
 var c04Texts = []string{"x", "X", " x", "x ", "x:y", "x:[S]y", "y:[S]z", "z", "y", "[S]x", "x:", ":x", "\\", "\\:", "x\\", "x\\:y", "a:b:c", "[I]1", "[N]", "1:[I]2", "",
-	"1", " 1 ", "01", "+1", "1.0", "1.50", "1.5", "-0", "0", "0.0", "true", "TRUE", "t", "false", "2012-02-03", "2012-02-03 00:00:00", "2012/02/03", "NaN", "nan", "inf", "あ:い", "à", "À", "abc", "ABC", "Abc ",
+	"1", " 1 ", "01", "+1", "1.0", "1.50", "1.5", "-0", "0", "0.0", "true", "TRUE", "t", "false", "2012-02-03", "2012-02-03 00:00:00", "2012/02/03", " 2012-02-03", "2012-02-03 ", "2012-2-3", "NaN", "nan", "inf", "あ:い", "à", "À", "abc", "ABC", "Abc ",
 	"9223372036854775807", "9223372036854775808", "1e2", "100", "100.0"}
 
 func c04Val(r *rand.Rand) value.Primary {
